@@ -46,6 +46,11 @@ def check(ctx, rep):
     if core is None or time is None:
         rep.missing('R13.a', 'crux_core / crux_time facts')
         return
+    # ---- R13.h: a task parked on a dropped request is released only if the eviction test can see that nobody holds its waker: the
+    # adaptors that keep waker clones of their own are used only where tabled (shared with C04)
+    from rules.props import c04 as _c04
+    rep.rule('R13.h', 'adaptors that keep clones of the task waker (flatten_unordered, buffer_unordered, select_all, ..) are used only where tabled', floor=1)
+    _c04.check_waker_retaining_adaptors(rep, 'R13.h', core)
     # ---- R13.a
     f = c06.method(core, 'crux_core::capability::executor::QueuingExecutor', 'run_task')
     if f is None:
